@@ -78,13 +78,55 @@ class Facts:
         return None
 
 
+# Home module of every (uniquely named) type of the three crates on the pinned tree. The modules are private (`mod shared;`
+# + `pub use`), so moving a type to another private module is a behaviour-preserving refactoring; the rules name types by
+# their home path, and a type found elsewhere is mapped back to it when the facts are loaded.
+TYPE_HOME = {
+    "eyeball": ["lock::SyncLock", "lock::AsyncLock", "read_guard::ObservableReadGuard", "shared::SharedObservable",
+                "shared::WeakObservable", "shared::ObservableWriteGuard", "state::ObservableState", "state::ObservableStateMetadata",
+                "subscriber::async_lock::AsyncSubscriberState", "subscriber::Subscriber", "subscriber::Next", "unique::Observable"],
+    "eyeball_im": ["reusable_box::ReusableBoxFuture", "reusable_box::CallOnDrop", "vector::entry::ObservableVectorEntry",
+                   "vector::entry::EntryIndex", "vector::entry::ObservableVectorEntries", "vector::subscriber::VectorSubscriber",
+                   "vector::subscriber::VectorSubscriberStream", "vector::subscriber::VectorSubscriberStreamState",
+                   "vector::subscriber::VectorSubscriberBatchedStream", "vector::subscriber::ReusableBoxRecvFuture",
+                   "vector::transaction::ObservableVectorTransaction", "vector::transaction::ObservableVectorTransactionEntry",
+                   "vector::transaction::ObservableVectorTransactionEntries", "vector::ObservableVector", "vector::BroadcastMessage",
+                   "vector::OneOrManyDiffs", "vector::VectorDiff"],
+    "eyeball_im_util": ["vector::filter::Filter", "vector::filter::FilterMap", "vector::filter::FilterImpl", "vector::filter::FilterImplProj",
+                        "vector::head::Head", "vector::head::HeadProj", "vector::head::EmptyLimitStream", "vector::ops::VectorDiffFamily",
+                        "vector::ops::VecVectorDiffFamily", "vector::skip::Skip", "vector::skip::SkipProj", "vector::skip::EmptyCountStream",
+                        "vector::sort::Sort", "vector::sort::SortBy", "vector::sort::SortByKey", "vector::sort::SortImpl",
+                        "vector::tail::Tail", "vector::tail::TailProj", "vector::traits::BatchedVectorSubscriber"],
+}
+
+
+def _rehome_types(text, crate):
+    """map types that were moved to another private module back to their home path (textual, whole path segments)."""
+    homes = {h.split("::")[-1]: h for h in TYPE_HOME.get(crate, [])}
+    try:
+        d = json.loads(text)
+    except ValueError:
+        return None, text
+    count = defaultdict(list)
+    for a in d.get("adts", []):
+        count[a["path"].split("::")[-1]].append(a["path"])
+    moved = [(ps[0], homes[n]) for n, ps in count.items() if n in homes and len(ps) == 1 and ps[0] != homes[n]]
+    if not moved:
+        return d, text
+    for actual, home in moved:
+        text = re.sub(r"(?<![\w])%s(?![\w])" % re.escape(actual), home, text)
+    return json.loads(text), text
+
+
 def load_config(facts_dir, config, nonce=None):
     crates = {}
     for fn in sorted(os.listdir(facts_dir)):
         m = re.match(r"^(eyeball\w*)\.%s\.json$" % re.escape(config), fn)
         if not m:
             continue
-        d = json.load(open(os.path.join(facts_dir, fn)))
+        d, _ = _rehome_types(open(os.path.join(facts_dir, fn)).read(), m.group(1))
+        if d is None:
+            raise RuntimeError("unreadable fact file %s" % fn)
         if nonce is not None and d.get("nonce") != nonce:
             raise RuntimeError("stale fact file %s (nonce %r != %r)" % (fn, d.get("nonce"), nonce))
         crates[m.group(1)] = d
@@ -154,9 +196,132 @@ def place_str(p):
     return s
 
 
+def _map_places_rv(rv, f):
+    rv = dict(rv)
+    k = rv["k"]
+
+    def op(o):
+        if o["k"] in ("copy", "move"):
+            o = dict(o)
+            o["place"] = f(o["place"])
+        return o
+    if k == "use":
+        rv["op"] = op(rv["op"])
+    elif k in ("ref", "raw", "discr", "len"):
+        if "place" in rv:
+            rv["place"] = f(rv["place"])
+    elif k == "bin":
+        rv["l"], rv["r"] = op(rv["l"]), op(rv["r"])
+    elif k in ("un", "cast", "repeat"):
+        rv["x"] = op(rv["x"])
+    elif k == "agg":
+        rv["ops"] = [op(o) for o in rv["ops"]]
+    return rv
+
+
+def forward_references(raw):
+    """Reference forwarding: a local with a single definition `_x = &[mut] P` (or a single plain copy/move of such a
+    reference) is only a name for the place P; every occurrence of `(*_x).rest` is rewritten to `P.rest`. Destructuring a
+    struct behind a reference into locals, binding `let v = &mut self.field`, and the parameter passing of the virtual
+    inliner then leave the places the rules look at unchanged. Sound for the place identities the rules use: P must not
+    contain an index projection, and every local on P's path must itself be single-assignment (or an unassigned argument),
+    so the path denotes the same memory wherever `_x` is live (the borrow checker keeps it alive and unmoved)."""
+    blocks = raw["blocks"]
+    ndefs = defaultdict(int)
+    single = {}
+    for b in blocks:
+        for s in b["stmts"]:
+            if s["k"] == "assign":
+                p = s["place"]
+                if not p["proj"]:
+                    ndefs[p["l"]] += 1
+                    single[p["l"]] = s["rv"]
+        t = b["term"]
+        if t["k"] == "call" and not t["dest"]["proj"]:
+            ndefs[t["dest"]["l"]] += 1
+            single[t["dest"]["l"]] = None
+        if t["k"] == "yield" and t.get("resume_arg") and not t["resume_arg"]["proj"]:
+            ndefs[t["resume_arg"]["l"]] += 2
+    argc = raw["arg_count"]
+    locs = raw["locals"]
+
+    def stable(l):
+        return (0 < l <= argc and ndefs[l] == 0) or (l > argc and ndefs[l] == 1) or l == 0 and ndefs[l] <= 1
+
+    amap = {}
+    for l, rv in single.items():
+        if rv is None or ndefs[l] != 1 or l <= argc:
+            continue
+        if rv["k"] == "ref":
+            P = rv["place"]
+            if any(isinstance(e, dict) and ("idx" in e or not ("f" in e or "dc" in e)) for e in P["proj"]):
+                continue
+            if not stable(P["l"]):
+                continue
+            amap[l] = ("ref", P)
+        elif rv["k"] == "use" and rv["op"]["k"] in ("copy", "move") and not rv["op"]["place"]["proj"]:
+            src = rv["op"]["place"]["l"]
+            ty = str(locs[l].get("ty", "")) if l < len(locs) else ""
+            if ty.startswith("&") and stable(src) and src != l:
+                amap[l] = ("same", src)
+    if not amap:
+        return raw
+
+    def canon(p, depth=0):
+        if depth > 12:
+            return p
+        a = amap.get(p["l"])
+        if a is None:
+            return p
+        if a[0] == "same":
+            return canon({"l": a[1], "proj": p["proj"]}, depth + 1)
+        if p["proj"] and p["proj"][0] == "deref":
+            P = canon(a[1], depth + 1)
+            return canon({"l": P["l"], "proj": list(P["proj"]) + list(p["proj"][1:])}, depth + 1)
+        return p
+
+    out_blocks = []
+    for b in blocks:
+        stmts = []
+        for s in b["stmts"]:
+            if s["k"] == "assign":
+                s = dict(s)
+                if s["place"]["proj"]:
+                    s["place"] = canon(s["place"])
+                s["rv"] = _map_places_rv(s["rv"], canon)
+            elif s["k"] == "set_discr":
+                s = dict(s)
+                s["place"] = canon(s["place"])
+            stmts.append(s)
+        t = dict(b["term"])
+        k = t["k"]
+
+        def op(o):
+            if o["k"] in ("copy", "move"):
+                o = dict(o)
+                o["place"] = canon(o["place"])
+            return o
+        if k == "call":
+            t["args"] = [op(a) for a in t["args"]]
+            if t["dest"]["proj"]:
+                t["dest"] = canon(t["dest"])
+        elif k == "switch":
+            t["on"] = op(t["on"])
+        elif k == "drop":
+            t["place"] = canon(t["place"])
+        elif k == "assert":
+            t["cond"] = op(t["cond"])
+        out_blocks.append({"cleanup": b["cleanup"], "stmts": stmts, "term": t})
+    raw = dict(raw)
+    raw["blocks"] = out_blocks
+    return raw
+
+
 class Body:
     def __init__(self, fn, raw, phase):
         self.fn = fn
+        if os.environ.get("VERIF_NO_FORWARD") != "1":
+            raw = forward_references(raw)
         self.raw = raw
         self.phase = phase
         self.blocks = raw["blocks"]
